@@ -51,6 +51,10 @@ def _decode_escape_sequence(  # noqa: PLR0911
         return chr(int(value[index + 1 : index + 3], 16)), index + 2
     if ch == "u":
         codepoint, index = _decode_hex_char(value, index, token)
+        if codepoint > 0x10FFFF:  # noqa: PLR2004
+            raise PestGrammarSyntaxError(
+                "escape sequence is not a Unicode code point", token=token
+            )
         return chr(codepoint), index
 
     raise PestGrammarSyntaxError(
